@@ -303,7 +303,7 @@ def correspondence(ctx, verdict, pr):
             v = g.get(which, '')
             if v and v != 'same' and not v.startswith('err') and not v.startswith('panic'):
                 m2.append('%s.%s REENC %d %s %s' % (c['id'], which, c['m'], hx(c['key']), v))
-    mrc2, merr2, mo2 = run_model(ctx, m2, 'phase3')
+    mrc2, merr2, mo2 = run_model(ctx, m2, 'phase3', nproc=4 if ctx.quick() else 10)
     if mrc2 != 0:
         res['broken'].append(('extracted model c04 failed (phase 3)', merr2[-2000:]))
 
@@ -435,26 +435,46 @@ def replay(ctx, verdict):
         want = 'ok %s %s %s %s' % (f[4], f[5], f[6], f[7])
         print('expected        :', want[:400])
         return 1 if go.get(cid + '.d') != want else 0
-    rc, log, go = run_go(ctx, [line], 'replay')
     cid = line.split()[0]
-    print('implementation:', (go.get(cid) or log[-1000:])[:1000])
-    if ' GENC ' not in line:
-        return 1 if 'fail=none' not in (go.get(cid) or '') else 0
-    g = parse_g(go.get(cid) or '')
     f = line.split()
-    c = dict(id=cid, kind=r.get('case', {}).get('kind', ''), m=int(f[2]), key=unhx(f[3]), sid=int(f[4], 16), seq=int(f[5], 16), closing=int(f[6], 16),
-             payload=unhx(f[7]), seed=f[8], buflen=int(f[9]), limit=r.get('case', {}).get('limit', int(f[9])))
-    fails = oracle_g(c, g)
-    bad = bool(fails)
-    for s, w in fails:
-        print('oracle:', s, w)
-    m2 = ['%s.%s REENC %s %s %s' % (cid, w, f[2], f[3], g[w]) for w in ('A', 'B') if g.get(w) and g[w] != 'same' and not g[w].startswith('err')]
+    if ' GENC ' in line and f[8] == 'real':
+        # the case used the real crypto/rand: repeat it, the failure may depend on the draw
+        lines = ['%s.%d %s' % (cid, k, line.split(' ', 1)[1]) for k in range(60)]
+    else:
+        lines = [line]
+    rc, log, go = run_go(ctx, lines, 'replay')
+    if ' GENC ' not in line:
+        print('implementation:', (go.get(cid) or log[-1000:])[:1000])
+        return 1 if 'fail=none' not in (go.get(cid) or '') else 0
+    bad = False
+    m2 = []
+    cs = {}
+    for ln in lines:
+        i = ln.split()[0]
+        g = parse_g(go.get(i) or '')
+        c = dict(id=i, kind=r.get('case', {}).get('kind', ''), m=int(f[2]), key=unhx(f[3]), sid=int(f[4], 16), seq=int(f[5], 16), closing=int(f[6], 16),
+                 payload=unhx(f[7]), seed=f[8], buflen=int(f[9]), limit=r.get('case', {}).get('limit', int(f[9])))
+        cs[i] = (c, g)
+        fails = oracle_g(c, g)
+        if fails:
+            bad = True
+            print('implementation (%s):' % i, (go.get(i) or log[-1000:])[:600])
+            for s_, w in fails:
+                print('oracle:', s_, w)
+        m2 += ['%s.%s REENC %s %s %s' % (i, w, f[2], f[3], g[w]) for w in ('A', 'B') if g.get(w) and g[w] != 'same' and not g[w].startswith('err')]
     mrc, merr, mo = run_model(ctx, m2, 'replay')
-    for k, v in mo.items():
+    nok = 0
+    for k, v in sorted(mo.items()):
+        i, w = k.rsplit('.', 1)
+        c, g = cs[i]
         parts = v.split(' ', 2)
-        ok = len(parts) == 3 and parts[2] == want_dec(c, ' ') and parts[0] == g[k.split('.')[1]]
-        print('independent decoder on %s: %s' % (k, 'decodes to the frame and re-encodes to identical bytes' if ok else 'DIFFERS: ' + v[:300]))
-        bad = bad or not ok
+        ok = len(parts) == 3 and parts[2] == want_dec(c, ' ') and parts[0] == g[w] and not parts[1].endswith(':0')
+        if ok:
+            nok += 1
+        else:
+            print('independent decoder on %s: DIFFERS: %s' % (k, v[:300]))
+            bad = True
+    print('independent decoder: %d of %d messages decode to the frame and re-encode to identical bytes' % (nok, len(mo)))
     return 1 if bad else 0
 
 
